@@ -503,4 +503,13 @@ MUTANTS = [
     dict(name='response-with-both', file='pjrpc/server/dispatcher.py',
          find='return self._response_class(id=request.id, error=error)',
          replace='return self._response_class(id=request.id, result=None, error=error)', expect=['ESC-DISPATCH', 'CATCH-ALL'], all=True),
+    dict(name='request-id-bool-accepted', file='pjrpc/common/v20.py', nth=1,
+         find="if id is not None and (isinstance(id, bool) or not isinstance(id, (int, str))):", replace="if id is not None and not isinstance(id, (int, str)):",
+         expect=['JSON-BOOL', 'FIELD-GUARD']),
+    dict(name='error-ctor-truthiness', file='pjrpc/common/exceptions.py', find='self.code = code if code is not None else self.code',
+         replace='self.code = code or self.code', expect='ERROR-SHAPE'),
+    dict(name='codes-fixed-zero-for-clean-batch', file='pjrpc/server/dispatcher.py',
+         find='        return (response.error.code,) if response.error else tuple(r.error.code if r.error else 0 for r in response)',
+         replace='        if response.error:\n            return (response.error.code,)\n        if not response.has_error:\n            return (0,)\n        return tuple(r.error.code if r.error else 0 for r in response)',
+         expect='CODES-SHAPE'),
 ]
